@@ -506,6 +506,9 @@ func main() {
 	sort.Strings(a.deepNotes)
 	res.Notes = append(res.Notes, a.deepNotes...)
 	res.Notes = append(res.Notes,
+		"super-linear families are capped (polynomial time is bounded time; the bound only tells a hang from slow progress): chain of groupings / typedefs 1000, "+
+			"chain of identities 600 (resolveIdentities is about O(n^4) on a base chain, identity.go addChildren: 0.3 s at 300, 1.6 s at 600, 10 s at 1000, 132 s at 2000 "+
+			"measured on this tree), reversed augment chain 100 (the augment loop is cubic on it)",
 		"bound per history: "+boundText+" wall clock in a crash-isolated child (GOMEMLIMIT=1536MiB, max stack 512 MiB, empty working directory)",
 		"fuzz share: histories outside the modelled domain (a text does not parse, no text accepted, texts above 24 KiB, statements the resolver model does "+
 			"not interpret: refine, augment below uses, relative augment paths, posix-pattern, undecodable strings) are checked for survival only",
